@@ -110,7 +110,30 @@ func runObligations(results []*FuncResult, dir string, timeoutS, seed int, all b
 		}()
 	}
 	wg.Wait()
+	// an obligation that discharged on the pinned tree and ran out of time now may
+	// be the victim of a loaded machine (the limit is wall-clock): it gets one
+	// more, sequential, attempt with a longer limit before it counts as failed
+	if retryFilter != nil {
+		n := 0
+		for _, j := range jobs {
+			if j.o.Cover || j.o.Result == nil || j.o.Result.Status != "timeout" || !retryFilter(j.o.Name) {
+				continue
+			}
+			if n++; n > 6 {
+				break
+			}
+			q := j.vc.query(j.o)
+			r := runQuery(q, dir, timeoutS*3, seed, false)
+			if r.Status == "unsat" {
+				r.Output += "(discharged at the second attempt, limit x3)\n"
+				j.o.Result = &r
+			}
+		}
+	}
 }
+
+// retryFilter selects the obligations that get a second attempt after a timeout.
+var retryFilter func(name string) bool
 
 func cmdVerify(args []string) {
 	fs := flag.NewFlagSet("verify", flag.ExitOnError)
